@@ -12,6 +12,12 @@
 #endif
 using T = WITNESS_T;
 
+struct WitnessArchive {
+    template <typename... A>
+    void operator()(A&&...) {}
+};
+
+
 std::size_t witness_c16_ring(const T& v, std::vector<T>* out) {
     tlx::RingBuffer<T> a(8), d;
     a.push_back(v);
@@ -36,6 +42,9 @@ std::size_t witness_c16_ring(const T& v, std::vector<T>* out) {
     d.push_back(ca.back());
     d.pop_front();
     d.push_back(ca[1]);
+    WitnessArchive ar;      // the cereal-style serialisation members re-create the buffer as well
+    ca.save(ar);
+    d.load(ar);
     a.copy_to(out);
     a.move_to(out);
     std::size_t r = a.size() + a.max_size() + a.capacity() + (a.empty() ? 1 : 0);
